@@ -7,7 +7,7 @@ TRUSTED_BASE = [
     "axioms admitted in `#print axioms` of every property theorem: propext, Classical.choice, Quot.sound only; no sorry/admit/axiom/native_decide/bv_decide/implemented_by/unsafe anywhere in lean/ (scanned on every run)",
     "the Lean model in lean/RossModel/*.lean is hand-written; theorems are about the model",
     "tie to /repo (checked on every run, finite): the harness crate links /repo's working tree unchanged (path dependency, feature std) and the compiled Lean driver (same definitions as the theorems) re-derives every observation; trusted for the tie: Lean compiler, rustc/cargo, harness generators/mocks/printers, catch_unwind",
-    "translator (bin/extract, bin/rust2lean.py; trusted): anchored regular expressions for the constant tables and codec field layouts, and a parser/translator for a small statement subset of Rust for 48 functions (PacketBuilder::add_frame/new/frames_left; Protocol::tick/send_packet/handle_packet/add_packet_handler/remove_packet_handler/get_next_handler_id/exchange_packet/exchange_packets; the frame-level tail of Can/Usart/Serial::try_get_packet; fifteen event decoders and fifteen encoders; Frame::from_usart_frame after the COBS decoding Frame::from_bxcan_frame, Frame::to_bxcan_frame and Frame::to_usart_frame) with this reading: u16/usize/u32 values are Nat, `as u16` is mod 65536, u16 `+`/`-` are the checked operations of a debug build (explicit panic branch), references are values, `self` is threaded through the effects invoking a handler closure = Proto.invoke, try_send_packet = Proto.ifaceSend, try_get_packet = Proto.ifaceGet, handlers.remove / insert = Proto.removeKey / insertKey, the wait closure = Proto.waitMark (hand-written model primitives, tied to the code by the correspondence check); `loop` bodies run on fuel that the theorems prove sufficient; for the receivers self.packet_builder is the whole state and PacketBuilder calls are the model's Builder.*; for the decoders slices, indices and `try_into().unwrap()` are the panicking primitives of lean/RossModel/Spec/SrcPrims.lean and the value sub-codecs are the model's; anything outside the subset is not translated and falls back to the hand-written definition (recorded per run)",
+    "translator (bin/extract, bin/rust2lean.py; trusted): anchored regular expressions for the constant tables and codec field layouts, and a parser/translator for a small statement subset of Rust for 49 functions (PacketBuilder::add_frame/new/frames_left/build; Protocol::tick/send_packet/handle_packet/add_packet_handler/remove_packet_handler/get_next_handler_id/exchange_packet/exchange_packets; the frame-level tail of Can/Usart/Serial::try_get_packet; fifteen event decoders and fifteen encoders; Frame::from_usart_frame after the COBS decoding Frame::from_bxcan_frame, Frame::to_bxcan_frame and Frame::to_usart_frame) with this reading: u16/usize/u32 values are Nat, `as u16` is mod 65536, u16 `+`/`-` are the checked operations of a debug build (explicit panic branch), references are values, `self` is threaded through the effects invoking a handler closure = Proto.invoke, try_send_packet = Proto.ifaceSend, try_get_packet = Proto.ifaceGet, handlers.remove / insert = Proto.removeKey / insertKey, the wait closure = Proto.waitMark (hand-written model primitives, tied to the code by the correspondence check); `loop` bodies run on fuel that the theorems prove sufficient; for the receivers self.packet_builder is the whole state and PacketBuilder calls are the model's Builder.*; for the decoders slices, indices and `try_into().unwrap()` are the panicking primitives of lean/RossModel/Spec/SrcPrims.lean and the value sub-codecs are the model's; anything outside the subset is not translated and falls back to the hand-written definition (recorded per run)",
     "modelled, not verified: cobs 0.1.4, bxcan data types (Can::receive/transmit replaced by a scripted stand-in in harness/vendor/bxcan-sim), nb::block!, embedded-hal and serialport traits, read_exact/write_all/flush, BTreeMap, Vec, closures (token + fixed sends), repr(C) layout of MessageValue on a little-endian host, overflow-checked integer arithmetic",
 ]
 
